@@ -139,6 +139,7 @@ const (
 	concSilentUnit = 99 // switched off: requests are received and never answered
 	concLongUnit   = 98 // answers with 265 bytes, more than a Modbus frame can have
 	concBrinkUnit  = 97 // completes its reply just after the client's read time-out
+	concPanicUnit  = 96 // the recording hook panics on requests to it (nothing reaches the device)
 )
 
 func concUnit(kind int, req []byte) int {
